@@ -1058,3 +1058,32 @@ def flatten_cases():
         ("empty containers inside", ((), [R(2)], {}), lambda np, t: np.sum(t[1][0] ** 2)),
         ("0-d array leaf", (R(), R(2)), lambda np, t: t[0] * np.sum(t[1])),
     ]
+
+
+
+# ----------------------------------------------------------------------------------------------
+# second-order grid (C07): configurations with at most 4 input entries
+
+
+def second_order_grid(tier):
+    def small(c):
+        n = 0
+        a = c.args[c.argnum]
+        if isinstance(a, (tuple, list, dict)):
+            return False
+        n = int(onp.prod(a.shape)) if a.shape is not None else 1
+        return n <= (4 if tier == "quick" else 6)
+
+    keep = []
+    seen_prim = {}
+    for c in real_grid("quick") + program_grid("quick"):
+        if not small(c):
+            continue
+        # bound the number of configurations per primitive (quick: 6, thorough: 30), spread over the list
+        lim = 6 if tier == "quick" else 30
+        n = seen_prim.get(c.prim, 0)
+        if c.prim != "program" and n >= lim:
+            continue
+        seen_prim[c.prim] = n + 1
+        keep.append(c)
+    return keep
